@@ -1,23 +1,32 @@
-"""Shared simulation helper of C08/C09: the REAL `cascade.shm.dataset.Manager` in-process.
+"""Shared simulation helper of C08/C09 (and of the shm part of C05): the REAL `cascade.shm.dataset.Manager` in-process.
 
-* real `SharedMemory` segments in /dev/shm (tiny sizes, a unique name prefix per Manager),
-  real `Disk._page_out/_page_in` on a real temporary directory, real `client.AllocatedBuffer`
-  for the writer/reader side, optionally the real `server.LocalServer.start` dispatch with the
-  real `api.ser/deser` over a scripted datagram socket;
-* `disk.readers/writers` are ManualPools: the harness decides when the I/O part of a job runs
-  (or fails) and, separately, when its callback runs;
-* `dataset.time` / `dataset.uuid` are deterministic fakes (time = the `t` of the op);
-* after EVERY op: canonical observation of the real state (answer, free space, lock, counter,
-  datasets, segments with contents, files, pending jobs) for the comparison with Model/Shm.lean,
-  and the property oracles (written from the property text, not from the model).
+* real `SharedMemory` segments in /dev/shm (a unique name prefix per Manager; most datasets tiny, a few per run larger
+  than disk.py's chunk size), real `Disk._page_out/_page_in` on a real temporary directory, the real
+  `server.LocalServer.start` dispatch with the real `api.ser/deser` over a scripted datagram socket, and the real
+  `cascade.shm.client` layer (`allocate`, `get`, `_send_command` with its wait/retry/timeout loop, `AllocatedBuffer`
+  with the close lambdas) talking to that server loop through a fake `socket` / `time` module pair;
+* `disk.readers/writers` are ManualPools: the harness decides when the I/O part of a job runs (or fails: REAL failures,
+  an unwritable spill directory for page-out, a refused / interrupted segment creation for page-in) and, separately, when
+  its callback runs; one op runs a callback in a REAL second thread while the server thread is between reading and
+  writing `Manager.free_space` (forced at byte-code level with sys.monitoring);
+* `dataset.time` / `dataset.uuid` are deterministic fakes (time = the `t` of the op); STALE_CREATE / STALE_READ are
+  module constants and are replaced by small, mostly different values per history;
+* after EVERY op: canonical observation of the real state (answer, free space, lock, counter, datasets, segments with
+  contents, files, pending jobs) for the comparison with Model/Shm.lean, and the property oracles.  The oracles are
+  written from the property text and keep their OWN ledger of allocations (what was granted, what the store asked the
+  disk to do, what /dev/shm shows); they do not read Dataset.status.
 No hooks in /repo: only module globals are replaced from here.
 """
+import functools
 import itertools
 import os
 
 _counter = itertools.count()
 RESIDENT = ("created", "in_memory", "paging_out", "paged_in")
 UNSAFE = ("created", "paging_out", "paged_in")
+LIVE_PHASES = ("writing", "readable", "out_pending", "in_pending", "limbo")      # ledger: size promised out of shared memory
+CHUNK = 4096                     # disk.py `chunk_size` (checked against the source by `source_constants`)
+_ORIG_STALE = None               # (STALE_CREATE, STALE_READ) of the source, captured at first use
 
 
 def _b36(n):
@@ -29,16 +38,30 @@ def _b36(n):
             return s
 
 
+@functools.lru_cache(maxsize=1024)
 def pattern(tok, size):
-    return bytes((tok * 37 + i * 11) % 256 for i in range(size))
+    """the bytes a writer with token `tok` (1..250) puts into its buffer: never zero, and NOT periodic in 256 or 4096
+    (a chunk written at a wrong offset, or twice, changes the bytes)"""
+    return bytes(1 + (tok * 37 + (i % 251) * 11 + i // 251) % 255 for i in range(size))
 
 
 def decode(b):
-    """bytes -> content token (0 = zero bytes, -1 = unknown)"""
-    if b == bytes(len(b)):
+    """bytes -> content token of the model: 0 = zero bytes, tok = pattern(tok, len), 256 + 256*m + tok = the first m bytes
+    of pattern(tok, .) followed by zeros (a partially filled segment), -1 = anything else"""
+    n = len(b)
+    if b == bytes(n):
         return 0
-    tok = (b[0] * 173) % 256
-    return tok if tok and b == pattern(tok, len(b)) else -1
+    tok = ((b[0] - 1) * 193) % 255 if b[0] else 0
+    if not 1 <= tok <= 250:
+        return -1
+    if b == pattern(tok, n):
+        return tok
+    m = 0
+    while m < n and b[m]:
+        m += 1
+    if b[:m] == pattern(tok, n)[:m] and b[m:] == bytes(n - m):
+        return 256 + 256 * m + tok
+    return -1
 
 
 class _Clock:
@@ -62,6 +85,7 @@ class _Jobs:
     def __init__(self):
         self.next = 0
         self.pending = {}
+        self.on_submit = None
 
 
 class ManualPool:
@@ -69,8 +93,11 @@ class ManualPool:
         self.jobs, self.kind = jobs, kind
 
     def submit(self, fn, *args):
-        self.jobs.pending[self.jobs.next] = {"kind": self.kind, "fn": fn, "args": args, "io": None}
+        jid = self.jobs.next
+        self.jobs.pending[jid] = {"kind": self.kind, "fn": fn, "args": args, "io": None}
         self.jobs.next += 1
+        if self.jobs.on_submit:
+            self.jobs.on_submit(jid, self.kind, args[0])
 
     def shutdown(self, **kw):
         pass
@@ -81,7 +108,7 @@ class _Sock:
         self.inbox, self.sent = [], []
 
     def recvfrom(self, n):
-        return self.inbox.pop(0), "client"
+        return self.inbox.pop(0)[:n], "client"
 
     def sendto(self, b, addr):
         self.sent.append(b)
@@ -94,10 +121,46 @@ def _exc(e):
     return type(e).__name__
 
 
+def source_constants():
+    """constants of the source that the model hard-codes; a changed source is a broken tie, not a crash"""
+    import inspect
+    import re
+    import cascade.shm.client as client
+    import cascade.shm.disk as disk
+    out = {}
+    m = re.search(r"chunk_size\s*=\s*(\d+)", inspect.getsource(disk.Disk._page_in))
+    out["chunk_size"] = int(m.group(1)) if m else None
+    src = inspect.getsource(client._send_command)
+    m = re.search(r"timeout_i\s*=\s*([0-9.]+)", src)
+    out["timeout_i"] = float(m.group(1)) if m else None
+    m = re.search(r"coeff\s*=\s*([0-9.]+)", src)
+    out["coeff"] = float(m.group(1)) if m else None
+    return out
+
+
+def float_attempts(timeout_sec, timeout_i=0.1, coeff=1):
+    """number of requests `_send_command` sends when every answer is `wait` (its arithmetic on binary floats)"""
+    n = 0
+    while timeout_sec > 0:
+        n += 1
+        timeout_sec -= timeout_i
+        timeout_i = min(timeout_i * coeff, timeout_sec)
+    return n
+
+
+# explicit timeouts used by the generator: those for which the float arithmetic of the loop gives the same number of
+# attempts as exact arithmetic, ceil(timeout / 0.1) (for e.g. 0.5 s rounding errors leave 2.7e-17 s and a sixth attempt)
+TIMEOUTS = [x for x in (0.1, 0.25, 0.3, 0.35, 0.75) if float_attempts(x) == -(-round(x * 1000) // 100)]
+
+EXPECTED_CONSTANTS = {"chunk_size": CHUNK, "timeout_i": 0.1, "coeff": 1.0}
+DEFAULT_BUDGET_MS = 60000        # the model's constant for client.allocate/get without a timeout argument
+
+
 class Real:
     """One real Manager plus the clients' side."""
 
-    def __init__(self, cap, via_server=False):
+    def __init__(self, cap, via_server=False, stale=None, avail=None):
+        global _ORIG_STALE
         import multiprocessing.resource_tracker as rt
         import cascade.shm.api as api
         import cascade.shm.client as client
@@ -108,11 +171,18 @@ class Real:
         rt.register = lambda *a, **k: None
         rt.unregister = lambda *a, **k: None
         self.api, self.client, self.dsm = api, client, dsm
-        dsm.get_capacity = lambda: 1 << 40
+        # what findmnt would report for /dev/shm; Manager.__init__ must trim a larger configured capacity to it and use it
+        # when none is configured (`avail` None: plenty)
+        self.avail = avail if avail is not None else 1 << 40
+        dsm.get_capacity = lambda: self.avail
         self.clock = _Clock()
         self.uuid = _Uuid()
         dsm.time = self.clock
         dsm.uuid = self.uuid
+        if _ORIG_STALE is None:
+            _ORIG_STALE = (int(dsm.STALE_CREATE), int(dsm.STALE_READ))
+        sc, sr = stale if stale else _ORIG_STALE
+        dsm.STALE_CREATE, dsm.STALE_READ = sc, sr      # module constants read by Dataset.is_pageoutable at call time
         self.stale_read = int(dsm.STALE_READ)
         self.stale_create = int(dsm.STALE_CREATE)
         self.prefix = "ek%s%s_" % (_b36(os.getpid()), _b36(next(_counter)))
@@ -122,28 +192,33 @@ class Real:
                     os.unlink("/dev/shm/" + n)
                 except OSError:
                     pass
-        self.cap = cap
         self.m = dsm.Manager(self.prefix, capacity=cap)
+        # the capacity the property speaks of: the configured one, never more than what /dev/shm has
+        self.cap = min(cap, self.avail) if cap else self.avail
         self.jobs = _Jobs()
         for name, kind in (("readers", "in"), ("writers", "out")):
             getattr(self.m.disk, name).shutdown()
             setattr(self.m.disk, name, ManualPool(self.jobs, kind))
         self.exited = False
         self.via_server = via_server
-        if via_server:
-            self.srv = object.__new__(server.LocalServer)
-            self.srv.sock = _Sock()
-            self.srv.manager = self.m
+        self.srv = object.__new__(server.LocalServer)
+        self.srv.sock = _Sock()
+        self.srv.manager = self.m
+        os.environ[api.client_port_envvar] = "1"
         self.name2key = {}
+        self.last_error = ""
 
     # ---------------------------------------------------------------- requests
-    def _rpc(self, req):
-        """one request through the real LocalServer.start loop (request + shutdown command)"""
+    def rpc_raw(self, raw):
+        """one datagram through the real LocalServer.start loop (request + shutdown command); returns the answer datagram"""
         api = self.api
-        self.srv.sock.inbox = [api.ser(req), api.ser(api.ShutdownCommand())]
+        self.srv.sock.inbox = [raw, api.ser(api.ShutdownCommand())]
         self.srv.sock.sent = []
         self.srv.start()
-        return api.deser(self.srv.sock.sent[0])
+        return self.srv.sock.sent[0]
+
+    def _rpc(self, req, raw=None):
+        return self.api.deser(self.rpc_raw(raw if raw is not None else self.api.ser(req)))
 
     @staticmethod
     def _errname(err):
@@ -152,9 +227,9 @@ class Real:
                 return n
         return "err:" + err[:40]
 
-    def add(self, k, size, deser):
-        if self.via_server:
-            r = self._rpc(self.api.AllocateRequest(key=k, l=size, deser_fun=deser))
+    def add(self, k, size, deser, raw=None):
+        if self.via_server or raw is not None:
+            r = self._rpc(self.api.AllocateRequest(key=k, l=size, deser_fun=deser), raw)
             shmid, err = r.shmid if hasattr(r, "shmid") else "", r.error
         else:
             shmid, err = self.m.add(k, size, deser)
@@ -163,10 +238,10 @@ class Real:
             return "granted", shmid
         return (err if err in ("conflict", "capacity exceeded", "wait") else self._errname(err)), ""
 
-    def get(self, k, cands):
+    def get(self, k, cands, raw=None):
         self.uuid.cands = list(cands)
-        if self.via_server:
-            r = self._rpc(self.api.GetRequest(key=k))
+        if self.via_server or raw is not None:
+            r = self._rpc(self.api.GetRequest(key=k), raw)
             if r.error:
                 return ("wait" if r.error == "wait" else self._errname(r.error)), None
             return "granted", (r.shmid, r.l, r.rdid, r.deser_fun)
@@ -197,13 +272,32 @@ class Real:
 
     # ---------------------------------------------------------------- disk jobs
     def job_io(self, jid, inj):
+        """the I/O part of job `jid`: the REAL Disk._page_out/_page_in, with a REAL failure when `inj` asks for one:
+        page-out `fail`/`failLate`: the spill directory is not there (open() raises after the segment was attached);
+        page-in `fail`: the segment cannot be created (SharedMemory raises ENOSPC, as on a full /dev/shm);
+        page-in `failLate`: the segment is created, then the file cannot be opened."""
+        import cascade.shm.disk as disk_mod
         j = self.jobs.pending[jid]
         got = []
         args = j["args"][:-1] + (lambda ok: got.append(bool(ok)),)
-        if inj == "fail" or (inj == "failLate" and j["kind"] == "out"):
-            got.append(False)
+        root = self.m.disk.root.name
+        if inj in ("fail", "failLate") and j["kind"] == "out":
+            os.rename(root, root + ".away")
+            try:
+                j["fn"](*args)
+            finally:
+                os.rename(root + ".away", root)
+        elif inj == "fail":
+            def no_space(*a, **k):
+                raise OSError(28, "No space left on device")
+            orig = disk_mod.SharedMemory
+            disk_mod.SharedMemory = no_space
+            try:
+                j["fn"](*args)
+            finally:
+                disk_mod.SharedMemory = orig
         elif inj == "failLate":
-            path = os.path.join(self.m.disk.root.name, j["args"][0])
+            path = os.path.join(root, j["args"][0])
             moved = os.path.exists(path)
             if moved:
                 os.rename(path, path + ".away")
@@ -245,10 +339,39 @@ class Real:
         j = self.jobs.pending.pop(jid)
         j["args"][-1](j["io"])
 
+    def with_window(self, func, attr, fn, in_window, tool=3):
+        """run fn() in this thread; when the interpreter is about to execute the STORE_ATTR `attr` inside `func` (i.e. the
+        value to store has already been computed from the value read before), call in_window() once.
+        Returns (fn's result, was the window reached)."""
+        import dis
+        import sys
+        mon = sys.monitoring
+        code = func.__code__
+        offs = {i.offset for i in dis.get_instructions(code) if i.opname == "STORE_ATTR" and i.argval == attr}
+        fired = []
+
+        def on_ins(c, off):
+            if c is code and off in offs and not fired:
+                fired.append(True)
+                in_window()
+        mon.use_tool_id(tool, "ekw-shm")
+        try:
+            mon.register_callback(tool, mon.events.INSTRUCTION, on_ins)
+            mon.set_local_events(tool, code, mon.events.INSTRUCTION)
+            return fn(), bool(fired)
+        finally:
+            mon.set_local_events(tool, code, 0)
+            mon.register_callback(tool, mon.events.INSTRUCTION, None)
+            mon.free_tool_id(tool)
+
     # ---------------------------------------------------------------- observation
     def _dir(self, d, pref):
         out = []
-        for n in os.listdir(d):
+        try:
+            names = os.listdir(d)
+        except OSError:
+            return out
+        for n in names:
             if not n.startswith(pref) or n.endswith(".away"):
                 continue
             try:
@@ -258,6 +381,9 @@ class Real:
                 continue
             out.append([self.name2key.get(n, "?" + n), len(b), decode(b)])
         return sorted(out)
+
+    def seg_names(self):
+        return {n for n in os.listdir("/dev/shm") if n.startswith(self.prefix)}
 
     def seg_bytes(self, shmid):
         try:
@@ -270,7 +396,7 @@ class Real:
         m = self.m
         ds = [{"k": k, "status": d.status.name, "size": d.size, "created": d.created, "first": d.retrieved_first,
                "last": d.retrieved_last, "readers": [[r, t] for r, t in d.ongoing_reads.items()],
-               "delayed": bool(d.delayed_purge), "deser": d.deser_fun} for k, d in m.datasets.items()]
+               "delayed": bool(d.delayed_purge), "deser": d.deser_fun} for k, d in list(m.datasets.items())]
         return ds
 
     def observe(self):
@@ -305,6 +431,49 @@ class Real:
         return left
 
 
+# =============================================================================== the client side's module fakes
+
+class _ClientSock:
+    def __init__(self, runner):
+        self.runner, self.resp = runner, b""
+
+    def settimeout(self, t):      # the real client bounds its wait for the answer (repo fix of Executor.terminate)
+        pass
+
+    def connect(self, addr):
+        pass
+
+    def send(self, b):
+        self.resp = self.runner._client_request(bytes(b))
+
+    def recv(self, n):
+        return self.resp[:n]
+
+    def close(self):
+        pass
+
+
+class _SocketModule:
+    AF_INET, SOCK_DGRAM = 2, 2
+
+    def __init__(self, runner):
+        self.runner = runner
+
+    def socket(self, *a, **k):
+        return _ClientSock(self.runner)
+
+
+class _TimeModule:
+    def __init__(self, runner):
+        self.runner = runner
+
+    def sleep(self, dt):
+        self.runner._client_sleep(dt)
+
+    def time(self):
+        return float(self.runner.t)
+
+
 # =============================================================================== runner
 
 def model_state(obs):
@@ -325,45 +494,77 @@ class Runner:
     """Executes abstract ops on a Real store, keeps the clients' ledger, concretises every op into
     a model line, and evaluates the oracles after every op."""
 
-    def __init__(self, cap, via_server=False):
-        self.real = Real(cap, via_server)
-        self.cap = cap
+    def __init__(self, cap, via_server=False, stale=None, avail=None):
+        self.real = Real(cap, via_server, stale, avail)
+        self.real.jobs.on_submit = self._on_submit
+        cap = self.cap = self.real.cap
         self.lines = [{"op": "init", "cap": cap, "staleCreate": self.real.stale_create, "staleRead": self.real.stale_read}]
         self.outs = [{"out": "init", "st": model_state(self.real.observe())}]
-        self.grants = []       # {gid,k,size,shmid,deser,tok,buf,closed,gone}
+        # ---- the clients' / oracle's own ledger (never reads Dataset.status)
+        self.grants = []       # allocations: {gid,k,size,shmid,tok,buf,closed,closed_ok,phase,...}
         self.readers = []      # {k,rdid,buf,t0,gid,bytes,stale}
-        self.purge_pending = {}  # k -> True if a purge arrived while the harness' readers held k
-        self.unsafe_purge = False
-        self.fails = {}        # kind -> (kind, what, op index): first oracle failure of each kind
-        self.stale_evicted = set()   # keys whose dataset was sent to disk while still `created` (stale writer)
-        self.dropped_open = set()    # keys whose dataset vanished (purge, failed page-out) while its writer had not closed
-        self.orphans = set()         # keys whose dataset vanished while a disk job for it was still pending
-        self.orphan_key_reused = False
-        self.prev_status = {}
+        self.jobmeta = {}      # jid -> {kind,k,gid,orphan,key_reused,took_foreign}
+        self.purge_pending = {}  # k -> gid of the allocation for which a purge arrived while the harness' readers held it
+        self.events = []       # oracle failures: (kind, what, op index, signature) -- one entry per distinct signature
+        self.disc = 0          # reported free - (capacity - resident total of the ledger), as of the previous op
+        self.disc_status = 0   # the same with the resident total the store's own status fields give
+        self.over = {}         # inequality oracles currently violated (reported at the rising edge)
+        self.unsafe_purge = False    # statistics only
+        self.cur = {}          # context of the op being executed (for the signatures)
+        self.wire = []         # (request, answer) datagrams of the real client layer during the current op
+        self.client_ctx = None
         self.nops = 0
         self.stats = {}
         self.t = 1
+        self.rdc = itertools.count()
+
+    def _newrd(self, prefix):
+        """a fresh reader-id candidate of 8 characters (Manager.get keeps the first 8 of str(uuid4()))"""
+        return "%s%07d" % (prefix, next(self.rdc))
 
     # -- helpers
     def _stat(self, k):
         self.stats[k] = self.stats.get(k, 0) + 1
 
     def _flag(self, kind, what, **sig):
-        if kind not in self.fails:
-            sig = dict(sig, kind=kind, unsafe_purge=self.unsafe_purge)
-            if self.unsafe_purge:
-                # the mechanism of the known purge-in-flight findings: the key of a dataset dropped while its disk job was
-                # still pending has been allocated again before that job ran (the orphaned job then acts on the new allocation)
-                sig["orphan_key_reused"] = self.orphan_key_reused
-            self.fails[kind] = (kind, what, self.nops, sig)
+        sig = dict(sig, kind=kind)
+        sig.setdefault("unsafe_purge", False)
+        if not any(e[3] == sig for e in self.events):
+            self.events.append((kind, what, self.nops, sig))
+
+    def _mech(self, job=None, alloc=None):
+        """signature part describing the mechanism of the known purge-in-flight findings FOR THE JOB / ALLOCATION AT HAND:
+        `job` is a disk job orphaned by a purge executed while it was pending (its dataset object was dropped, 'calling
+        purge in unsafe status'), `alloc` an allocation whose segment was consumed by such a job; `orphan_key_reused`: the
+        key had been allocated again before the orphaned job ran, so the job acted on the new allocation."""
+        if alloc is not None and job is None and alloc.get("taken_by") is not None:
+            job = self.jobmeta.get(alloc["taken_by"])
+        if alloc is not None and job is None and alloc.get("dropped_by_orphan") is not None:
+            job = self.jobmeta.get(alloc["dropped_by_orphan"])
+        if job is not None and job.get("orphan"):
+            return {"unsafe_purge": True, "orphan_key_reused": bool(job.get("key_reused"))}
+        return {"unsafe_purge": False}
+
+    def _nonconform(self):
+        """a writer of this history created its segment with a size other than the granted one, or only after the store had
+        given the allocation up (assumption of the property broken by the harness on purpose, class (a) of SafeRun;
+        client.allocate creates the segment in the same call): the sizes of what /dev/shm holds are not the store's doing"""
+        return {"nonconform_writer": True} if any(g.get("wsize", g["size"]) != g["size"] or g.get("late_write") for g in self.grants) else {}
+
+    @property
+    def fails(self):
+        out = {}
+        for e in self.events:
+            out.setdefault(e[0], e)
+        return out
 
     @property
     def fail(self):
         """the earliest oracle failure"""
-        return min(self.fails.values(), key=lambda f: f[2]) if self.fails else None
+        return min(self.events, key=lambda f: f[2]) if self.events else None
 
     def first_fail(self, kinds):
-        fs = [f for k, f in self.fails.items() if k in kinds]
+        fs = [e for e in self.events if e[0] in kinds]
         return min(fs, key=lambda f: f[2]) if fs else None
 
     def current_grant(self, k):
@@ -372,60 +573,137 @@ class Runner:
                 return g
         return None
 
-    def _emit(self, line, out):
-        obs = self.real.observe()
+    def live_alloc(self, k):
+        for g in reversed(self.grants):
+            if g["k"] == k and g["phase"] != "gone":
+                return g
+        return None
+
+    # -- ledger events
+    def _follow_orphan(self, g):
+        """allocation g was made while an orphaned job of its key was pending, that job has failed meanwhile and g never had a
+        segment of its own in /dev/shm at that time: the job's failure callback has purged g BY KEY (nothing had to vanish for
+        that). The discrepancy was reported at that callback (known mechanism); from here on the ledger follows the store."""
+        jid = g.get("under_orphan")
+        if jid is None or g["phase"] != "writing" or jid in self.real.jobs.pending:
+            return False
+        jm = self.jobmeta.get(jid, {})
+        if jm.get("io") is True or jm.get("cb_at") is None or (g.get("wrote_at") is not None and g["wrote_at"] < jm["cb_at"]):
+            return False
+        self._drop(g, "purge-by-orphaned-job")
+        g["dropped_by_orphan"] = jid
+        self.disc -= g["size"]
+        self._stat("ledger:followed-orphaned-job's-purge")
+        return True
+
+    def _on_submit(self, jid, kind, shmid):
+        k = self.real.name2key.get(shmid)
+        g = self.live_alloc(k) if k is not None else None
+        self.jobmeta[jid] = {"id": jid, "kind": kind, "k": k, "gid": g["gid"] if g else None, "orphan": False,
+                             "key_reused": False, "took_foreign": None}
+        if g is not None:
+            if kind == "out":
+                if not g.get("made_readable"):
+                    g["evicted_unclosed"] = True       # sent to disk although no writer's close had made it readable
+                g["phase"] = "out_pending"
+            else:
+                g["phase"] = "in_pending"
+
+    def _drop(self, g, cause):
+        """the store released allocation g (seen from outside: its segment vanished / its failed job left nothing)"""
+        if g["phase"] == "gone":
+            return
+        was = g["phase"]
+        g["phase"] = "gone"
+        g["drop_cause"] = cause
+        g["dropped_open"] = not g["closed"]
+        for jid, jm in self.jobmeta.items():
+            if jm["gid"] == g["gid"] and jid in self.real.jobs.pending and jm.get("own_cb") != self.nops:
+                jm["orphan"] = True              # dropped by a purge while its disk job was still pending
+                self.unsafe_purge = True
+        self._stat("ledger:drop:%s:%s" % (cause, was))
+
+    def _vanished(self, before, cause, own_job=None):
+        """segments that existed before the op and do not exist any more: the allocations they belonged to are released"""
+        now = self.real.seg_names()
+        for n in before - now:
+            k = self.real.name2key.get(n)
+            g = self.live_alloc(k) if k is not None else None
+            if g is None:
+                continue
+            if own_job is not None and own_job["gid"] == g["gid"]:
+                continue                          # a page-out job unlinking its own segment is not a release
+            if own_job is not None:
+                # a disk job of an OLDER allocation of this key consumed the segment of the current one
+                g["taken_by"] = own_job["id"]
+                own_job["took_foreign"] = g["gid"]
+                continue
+            self._drop(g, cause)
+        return now
+
+    def _emit(self, line, out, observe=True):
         self.lines.append(line)
+        if not observe:
+            self.outs.append({"out": out})
+            self.nops += 1
+            self._stat("op:" + line["op"])
+            return None
+        obs = self.real.observe()
         self.outs.append({"out": out, "st": model_state(obs)})
         self.nops += 1
         self._stat("op:" + line["op"])
         self._oracle_state(obs)
         return obs
 
-    # -- oracles on the state after every op (C08 text: usage <= capacity, reported free)
+    # -- oracles on the state after every op (C08 text: usage <= capacity, reported free = capacity - resident)
     def _oracle_state(self, obs):
         cap = self.cap
+        cur = self.cur
         segtot = sum(s[1] for s in obs["segs"])
-        if segtot > cap:
-            self._flag("segments-exceed-capacity", f"segments of the run total {segtot} bytes > capacity {cap}")
-        resident = sum(d["size"] for d in obs["ds"] if d["status"] in RESIDENT)
         free = obs["free"]
-        if resident > cap:
-            self._flag("resident-exceeds-capacity", f"datasets resident in shared memory total {resident} > capacity {cap}")
-        if free != cap - resident:
-            self._flag("free-space-mismatch", f"reported free space {free} != capacity {cap} - resident total {resident}")
-        elif segtot > cap - free:
-            self._flag("segments-exceed-accounted", f"segments total {segtot} > capacity {cap} - free {free}")
+        resident = sum(g["size"] for g in self.grants if g["phase"] in LIVE_PHASES)
+        resident_status = sum(d["size"] for d in obs["ds"] if d["status"] in RESIDENT)
+        disc = free - (cap - resident)
+        disc_status = free - (cap - resident_status)
+        if disc != self.disc or disc_status != self.disc_status:
+            basis = "both" if (disc != self.disc and disc_status != self.disc_status) else "ledger" if disc != self.disc else "status"
+            mech = self._mech(cur.get("job"), cur.get("alloc"))
+            d0, d1 = (self.disc, disc) if disc != self.disc else (self.disc_status, disc_status)
+            if mech.get("unsafe_purge") and cur.get("op") == "cb" and cur.get("job") is not None and cur["job"].get("io") is True \
+                    and cur["job"].get("took_foreign") is None:
+                mech = {"unsafe_purge": True, "orphan_key_reused": False}
+            self._flag("free-space-mismatch",
+                       f"reported free space {free} != capacity {cap} - resident total {resident} (datasets being written, readable, "
+                       f"being paged out or in, by the clients' ledger; {resident_status} by the store's status fields): the difference "
+                       f"went from {d0} to {d1} in op {cur.get('op')} {cur.get('k', '')}",
+                       op=cur.get("op"), basis=basis, **mech)
+        self.disc, self.disc_status = disc, disc_status
+        slack = max(0, disc)      # every unit of discrepancy has been reported where it arose; the bounds below are relative to it
+        checks = (("segments-exceed-capacity", segtot > cap + slack, f"segments of the run total {segtot} bytes > capacity {cap}"),
+                  ("resident-exceeds-capacity", resident > cap + slack, f"datasets resident in shared memory total {resident} > capacity {cap}"),
+                  ("segments-exceed-accounted", segtot > cap - free + slack, f"segments total {segtot} > capacity {cap} - free {free}"))
+        for kind, bad, what in checks:
+            if bad and not self.over.get(kind):
+                self._flag(kind, what + f" after op {cur.get('op')} {cur.get('k', '')}", op=cur.get("op"),
+                           **self._mech(cur.get("job"), cur.get("alloc")), **(self._nonconform() if kind.startswith("segments") else {}))
+            self.over[kind] = bad
         # C09: a dataset held by a young reader is neither paged out nor unlinked
-        status = {d["k"]: d["status"] for d in obs["ds"]}
-        for k, st in status.items():
-            if st == "paging_out" and self.prev_status.get(k) == "created":
-                self.stale_evicted.add(k)
-        for k in list(self.stale_evicted):
-            if k not in status:
-                self.stale_evicted.discard(k)
-        # an allocation dropped by the store while its writer is still writing: that writer's later close is keyed by
-        # the key only, so it lands on whatever allocation owns the key then (root cause of C09-purge-created-key-reuse)
-        for k in self.prev_status:
-            if k not in status and any(g["k"] == k and not g["closed"] for g in self.grants):
-                self.dropped_open.add(k)
-        pending_keys = {j["k"] for j in obs["jobs"]}
-        for k in self.prev_status:
-            if k not in status and k in pending_keys:
-                self.orphans.add(k)
-        self.orphans &= pending_keys
-        if any(k in status and self.prev_status.get(k) is None for k in self.orphans):
-            self.orphan_key_reused = True      # allocated again while the orphaned job is still pending
-        self.prev_status = status
         for r in self.readers:
-            if r["bytes"] is None:
+            if r["bytes"] is None or r.get("flagged"):
                 continue
             if self.t - r["t0"] > self.real.stale_read:
                 r["stale"] = True
                 continue
             b = self.real.seg_bytes(r["shmid"])
-            if b != r["bytes"] or status.get(r["k"]) != "in_memory":
-                self._flag("reader-unprotected", f"reader {r['rdid']} of {r['k']} (age {self.t - r['t0']}) still holds, but status is "
-                           f"{status.get(r['k'])} and the segment {'is gone' if b is None else 'changed' if b != r['bytes'] else 'exists'}")
+            if b is not None:
+                b = b[:len(r["bytes"])]          # what the reader's view covers
+            g = self.grants[r["gid"]] if r["gid"] is not None else None
+            phase = g["phase"] if g else None
+            if b != r["bytes"] or phase != "readable":
+                r["flagged"] = True
+                self._flag("reader-unprotected", f"reader {r['rdid']} of {r['k']} (age {self.t - r['t0']}, window {self.real.stale_read}) "
+                           f"still holds, but the dataset is {phase} and the segment {'is gone' if b is None else 'changed' if b != r['bytes'] else 'exists'}",
+                           op=cur.get("op"), **self._mech(cur.get("job"), g))
 
     # -- the ops
     def apply(self, op):
@@ -435,6 +713,7 @@ class Runner:
         if "t" in op:
             self.t = max(self.t, op["t"])
         self.real.clock.t = self.t
+        self.cur = {"op": kind, "k": op.get("k", "")}
         # watchdog: every request handler and every disk-job callback of the real Manager runs in this thread, so a
         # handler that blocks (e.g. on a lock it already holds) would hang the check; a blocked request is a request
         # that is never answered, i.e. a violation of the 'eventually granted' clause, and is reported as such
@@ -456,63 +735,116 @@ class Runner:
         finally:
             signal.alarm(0)
             signal.signal(signal.SIGALRM, old)
+            self.client_ctx = None
 
-    def _op_add(self, op):
-        k, size = op["k"], op["size"]
-        pre = self.real.observe()
+    # ---- add
+    def _do_add(self, k, size, deser, c=None, raw=None, race=None):
+        """one AllocateRequest; `race` = (jid): run the callback of that job in a second thread inside the free_space window"""
+        self.cur = {"op": "add" if race is None else "race-add", "k": k}
+        pre_free = self.real.m.free_space
+        live = self.live_alloc(k)
+        raced = False
         try:
-            out, shmid = self.real.add(k, size, "d" + k)
+            if race is not None:
+                (out, shmid), raced = self._raced(self.real.dsm.Manager.add, race, lambda: self.real.add(k, size, deser, raw))
+            else:
+                out, shmid = self.real.add(k, size, deser, raw)
         except Exception as e:
             out, shmid = "exception:" + _exc(e), ""
         if out == "granted":
-            self.grants.append({"gid": len(self.grants), "k": k, "size": size, "shmid": shmid, "tok": None,
-                                "buf": None, "closed": False})
+            under = None
+            for jm in self.jobmeta.values():
+                if jm["k"] == k and jm["orphan"] and jm["id"] in self.real.jobs.pending:
+                    jm["key_reused"] = True      # allocated again while the orphaned job is still pending
+                    under = jm["id"]
+            if live is not None and self._follow_orphan(live):
+                live = None
+            self.grants.append({"gid": len(self.grants), "k": k, "size": size, "shmid": shmid, "tok": None, "buf": None,
+                                "closed": False, "closed_ok": False, "phase": "writing", "deser": deser, "under_orphan": under})
         # admission rule (C08 text)
-        exists = any(d["k"] == k for d in pre["ds"])
-        if out == "granted" and size > pre["free"]:
-            self._flag("granted-early", f"add({k},{size}) granted with free space {pre['free']}")
-        if out == "granted" and exists:
-            self._flag("granted-over-existing", f"add({k},{size}) granted although the key exists")
-        if not exists and size > self.cap and out != "capacity exceeded":
+        if out == "granted" and size > pre_free:
+            self._flag("granted-early", f"add({k},{size}) granted with free space {pre_free}")
+        if out == "granted" and live is not None:
+            self._flag("granted-over-existing", f"add({k},{size}) granted although the key is allocated", **self._mech(alloc=live))
+        if live is None and size > self.cap and out != "capacity exceeded":
             self._flag("oversize-not-refused", f"add({k},{size}) with capacity {self.cap} answered {out!r}")
-        if not exists and pre["free"] < size <= self.cap and out != "wait":
-            self._flag("nofit-not-wait", f"add({k},{size}) with free {pre['free']} answered {out!r}")
+        if live is None and pre_free < size <= self.cap and out != "wait":
+            self._flag("nofit-not-wait", f"add({k},{size}) with free {pre_free} answered {out!r}")
         self._stat("add:" + out)
-        if "c" in op:
-            self._stat("requests_by_client_%d" % op["c"])
-        self._emit({"op": "add", "k": k, "size": size, "deser": "d" + k, "t": self.t}, out)
+        if size == 0:
+            self._stat("add:size0:" + out)
+        if size > CHUNK:
+            self._stat("add:larger-than-chunk:" + out)
+        if c is not None:
+            self._stat("requests_by_client_%d" % c)
+        line = {"op": "add", "k": k, "size": size, "deser": deser, "t": self.t}
+        if raced:
+            # the callback ran to its end (or up to the lock) before the handler stored the dataset: as a sequence, `cb; add`
+            self._after_cb(race, "done", observe=False)
+            self.cur = {"op": "race-add", "k": k, "job": self.jobmeta.get(race)}
+        self._emit(line, out)
         return out
 
+    def _op_add(self, op):
+        return self._do_add(op["k"], op["size"], "d" + op["k"], op.get("c"))
+
+    # ---- the writer's segment
     def _op_cwrite(self, op):
         g = next((g for g in self.grants if g["k"] == op["k"] and g["tok"] is None), None)
         if g is None:
             return None
         tok = op["tok"]
+        size = op.get("size", g["size"])      # a size other than the granted one only in `nonconform` histories / witnesses
+        self.cur = {"op": "cwrite", "k": g["k"], "alloc": g}
+        self._follow_orphan(g)
         try:
-            buf = self.real.client.AllocatedBuffer(g["shmid"], g["size"], True, None, g.get("deser", ""))
-            buf.view()[:] = pattern(tok, g["size"])
+            buf = self.real.client.AllocatedBuffer(g["shmid"], size, True, None, g.get("deser", ""))
+            buf.view()[:] = pattern(tok, size)
             g["buf"] = buf
             out = "ok"
         except FileExistsError:
             out = "exists"
+        except ValueError:
+            out = "invalid"                    # SharedMemory refuses size 0
         except Exception as e:
             out = "exception:" + _exc(e)
         g["tok"] = tok
-        self._emit({"op": "cwrite", "k": g["k"], "size": g["size"], "tok": tok}, out)
+        g["wsize"] = size
+        g["wrote_at"] = self.nops
+        if size != g["size"]:
+            self._stat("cwrite:size-differs-from-grant")
+        if out == "ok" and g["phase"] != "writing":
+            g["late_write"] = True         # created its segment after the store had evicted / dropped the allocation (stale writer)
+            self._stat("cwrite:after-eviction-or-drop")
+        self._emit({"op": "cwrite", "k": g["k"], "size": size, "tok": tok}, out)
         return out
 
+    # ---- closes
     def _close(self, buf, k, rdid):
+        """close of a buffer (real AllocatedBuffer.close -> close callback) or a bare close callback; returns the canonical answer"""
+        self.wire = []
         try:
-            if buf is not None:
+            if buf is not None and getattr(buf, "_ekw_real_cb", False):
+                self.client_ctx = {"kind": "close"}
+                buf.close()                    # the REAL lambda of client.allocate/get -> close_callback -> _send_command
+                sent = [self.real.api.deser(q) for q, _ in self.wire]
+                want = self.real.api.CloseCallback(key=k, rdid=rdid)
+                if sent != [want]:
+                    self._flag("client-protocol", f"closing the buffer of {k} (reader id {rdid!r}) must send exactly {want}; sent {sent}")
+            elif buf is not None:
                 buf.close_callback = lambda: self.real.close_callback(k, rdid)
                 buf.close()
             else:
                 self.real.close_callback(k, rdid)
             return "ok"
         except (KeyError, ValueError) as e:
+            if self.wire:                      # the real client turns every server error into ValueError(repr of the server's exception)
+                return self.real._errname(str(e))
             return _exc(e)
         except Exception as e:
             return "exception:" + _exc(e)
+        finally:
+            self.client_ctx = None
 
     def _op_closeW(self, op):
         k = op["k"]
@@ -521,17 +853,33 @@ class Runner:
             g = next((g for g in self.grants if g["k"] == k and not g["closed"]), None)
         elif g is None:
             return None
+        before = self.real.seg_names()
+        cur = self.live_alloc(k)
+        self.cur = {"op": "closeW", "k": k, "alloc": cur}
         out = self._close(g["buf"] if g else None, k, "")
         if g:
             g["closed"] = True
-            g["closed_ok"] = out == "ok"
+            g["closed_ok"] = out == "ok" and cur is g
+        if out == "ok" and cur is not None:
+            cur["made_readable"] = True
+            if cur["phase"] == "writing":
+                cur["phase"] = "readable"
+            if cur is not g:
+                # the close of a writer whose allocation is gone landed on the allocation that owns the key now
+                cur["closed_by_foreign_writer"] = g["gid"] if g else -1
+        self._vanished(before, "delayed-purge-at-close")
         self._emit({"op": "closeW", "k": k}, out)
         return out
 
-    def _op_get(self, op):
-        k = op["k"]
+    # ---- get
+    def _do_get(self, k, cands, c=None, raw=None, attach=True, race=None):
+        raced = False
+        self.cur = {"op": "get" if race is None else "race-get", "k": k}
         try:
-            out, val = self.real.get(k, op["cands"])
+            if race is not None:
+                (out, val), raced = self._raced(self.real.dsm.Manager.page_in, race, lambda: self.real.get(k, cands, raw))
+            else:
+                out, val = self.real.get(k, cands, raw)
         except KeyError:
             out, val = "KeyError", None
         except RuntimeError as e:
@@ -539,72 +887,108 @@ class Runner:
         except Exception as e:
             out, val = "exception:" + _exc(e), None
         self._stat("get:" + out)
-        if "c" in op:
-            self._stat("requests_by_client_%d" % op["c"])
+        if c is not None:
+            self._stat("requests_by_client_%d" % c)
+        rd = None
         if out == "granted":
             shmid, l, rdid, deser = val
-            g = self.current_grant(k)
-            rd = {"k": k, "rdid": rdid, "buf": None, "t0": self.t, "bytes": None, "shmid": shmid, "stale": False}
-            try:
-                buf = self.real.client.AllocatedBuffer(shmid, l, False, None, deser)
-                rd["buf"] = buf
-                rd["bytes"] = bytes(buf.view())
-            except Exception as e:
-                if g is not None and g["tok"] is not None and g["buf"] is not None:
-                    self._flag("granted-missing-segment", f"get({k}) granted but attaching {shmid} failed: {_exc(e)}")
+            g = self.live_alloc(k)
+            self.cur["alloc"] = g
+            rd = {"k": k, "rdid": rdid, "buf": None, "t0": self.t, "bytes": None, "shmid": shmid, "stale": False,
+                  "gid": g["gid"] if g else None, "l": l, "deser": deser}
             self.readers.append(rd)
-            if g is None or g["tok"] is None:
-                pass    # nothing was written by a writer we know: no content claim
-            elif rd["bytes"] is not None and rd["bytes"] != pattern(g["tok"], g["size"]):
-                self._flag("content-mismatch", f"get({k}) returned {rd['bytes'][:8].hex()}.. ({len(rd['bytes'])} bytes), "
-                           f"written {pattern(g['tok'], g['size'])[:8].hex()}.. ({g['size']} bytes)")
             if g is not None and not g.get("closed_ok"):
                 self._flag("readable-before-close", f"get({k}) granted although the writer of this allocation has not finished",
-                           stale_writer=k in self.stale_evicted, writer_dropped_key_reused=k in self.dropped_open)
+                           stale_writer=bool(g.get("evicted_unclosed")),
+                           writer_dropped_key_reused=g.get("closed_by_foreign_writer") is not None)
+            if attach:
+                self._attach(rd, None)
             out = {"size": l, "rdid": rdid, "deser": deser}
-        self._emit({"op": "get", "k": k, "t": self.t, "cands": op["cands"]}, out)
+        line = {"op": "get", "k": k, "t": self.t, "cands": list(cands)}
+        if raced:
+            self._after_cb(race, "done", observe=False)
+            self.cur = {"op": "race-get", "k": k, "job": self.jobmeta.get(race)}
+        self._emit(line, out)
+        return out, rd
+
+    def _attach(self, rd, buf):
+        """the reader's side of a granted get: attach the segment (or take the buffer the real client.get returned), read"""
+        k = rd["k"]
+        g = self.grants[rd["gid"]] if rd["gid"] is not None else None
+        try:
+            if buf is None:
+                buf = self.real.client.AllocatedBuffer(rd["shmid"], rd["l"], False, None, rd["deser"])
+            rd["buf"] = buf
+            rd["bytes"] = bytes(buf.view())
+        except Exception as e:
+            if g is not None and g["tok"] is not None and g["buf"] is not None:
+                self._flag("granted-missing-segment", f"get({k}) granted but attaching {rd['shmid']} failed: {_exc(e)}", **self._mech(alloc=g))
+        if g is None or g["tok"] is None or g["buf"] is None or g.get("wsize", g["size"]) != g["size"]:
+            pass    # the writer of this allocation did not (manage to) write, or not with the granted size: no content claim
+        elif rd["bytes"] is not None and rd["bytes"] != pattern(g["tok"], g["size"]):
+            want = pattern(g["tok"], g["size"])
+            first = next((i for i in range(min(len(want), len(rd["bytes"]))) if want[i] != rd["bytes"][i]), min(len(want), len(rd["bytes"])))
+            self._flag("content-mismatch", f"get({k}) returned {len(rd['bytes'])} bytes, written {g['size']} bytes; first difference at offset {first} "
+                       f"(read {rd['bytes'][first:first + 4].hex()}, written {want[first:first + 4].hex()})", **self._mech(alloc=g))
+
+    def _op_get(self, op):
+        out, _ = self._do_get(op["k"], op["cands"], op.get("c"))
         return out
 
     def _op_closeR(self, op):
         if op.get("bogus"):
             k, rdid = op["k"], op["rdid"]
+            before = self.real.seg_names()
+            self.cur = {"op": "closeR", "k": k, "alloc": self.live_alloc(k)}
             out = self._close(None, k, rdid)
+            self._vanished(before, "delayed-purge-at-close")
             self._emit({"op": "closeR", "k": k, "rdid": rdid}, out)
             return out
         if not self.readers:
             return None
         r = self.readers.pop(op["idx"] % len(self.readers))
         k = r["k"]
+        before = self.real.seg_names()
+        self.cur = {"op": "closeR", "k": k, "alloc": self.grants[r["gid"]] if r["gid"] is not None else None}
         out = self._close(r["buf"], k, r["rdid"])
-        if out != "ok" or r["stale"]:
-            self.purge_pending.pop(k, None)     # a stale reader is outside the protection clause
+        if out != "ok" and r["gid"] is not None:
+            # the close was refused (the dataset had been evicted under this reader): the store keeps the reader registered
+            self.grants[r["gid"]]["zombie_readers"] = self.grants[r["gid"]].get("zombie_readers", 0) + 1
+        self._vanished(before, "delayed-purge-at-close")
         obs = self._emit({"op": "closeR", "k": k, "rdid": r["rdid"]}, out)
-        if self.purge_pending.get(k) and not any(x["k"] == k for x in self.readers):
+        pend = self.purge_pending.get(k)
+        if pend is not None and pend == r["gid"] and not any(x["k"] == k and x["gid"] == r["gid"] for x in self.readers):
             self.purge_pending.pop(k)
-            if any(d["k"] == k for d in obs["ds"]) or any(s[0] == k for s in obs["segs"]):
-                self._flag("delayed-purge-lost", f"purge({k}) arrived during a read; the last reader closed but the dataset is still there")
+            g = self.grants[r["gid"]]
+            if g["phase"] != "gone":
+                self._flag("delayed-purge-lost", f"purge({k}) arrived during a read; the last reader closed (answer {out}) but the dataset is still "
+                           f"there ({g['phase']})", stale_reader_close_refused=bool((r["stale"] and out != "ok") or (g.get("zombie_readers") and out == "ok")),
+                           **self._mech(alloc=g))
         return out
 
     def _op_purge(self, op):
         k = op["k"]
-        pre = self.real.observe()
-        d = next((d for d in pre["ds"] if d["k"] == k), None)
-        if d is not None and not d["readers"] and d["status"] in UNSAFE:
-            self.unsafe_purge = True
-            self._stat("purge:unsafe-status")
-        held = [r for r in self.readers if r["k"] == k]
-        if d is not None and held and d["readers"]:
-            if all(not r["stale"] and r["bytes"] is not None for r in held) and len(held) == len(d["readers"]):
-                self.purge_pending[k] = True
-                self._stat("purge:during-read")
+        g = self.live_alloc(k)
+        self.cur = {"op": "purge", "k": k, "alloc": g}
+        d = self.real.m.datasets.get(k)
+        if d is not None and not d.ongoing_reads and d.status.name in UNSAFE:
+            self._stat("purge:unsafe-status")          # statistics of the generator only
+        held = [r for r in self.readers if r["k"] == k and g is not None and r["gid"] == g["gid"] and r["bytes"] is not None]
+        if g is not None and held and g["phase"] == "readable":
+            # a purge during a read (all readers of the allocation are ours, none of them closed yet)
+            self.purge_pending[k] = g["gid"]
+            self._stat("purge:during-read")
+        before = self.real.seg_names()
         try:
             out = self.real.purge(k)
         except Exception as e:
             out = "exception:" + _exc(e)
+        self._vanished(before, "purge-request")
         self._emit({"op": "purge", "k": k}, out)
         return out
 
     def _op_freeSpace(self, op):
+        self.cur = {"op": "freeSpace", "k": ""}
         try:
             out = self.real.free_space()
         except Exception as e:
@@ -612,6 +996,7 @@ class Runner:
         self._emit({"op": "freeSpace"}, out)
         return out
 
+    # ---- disk jobs
     def _op_io(self, op):
         ids = [i for i, j in sorted(self.real.jobs.pending.items()) if j["io"] is None]
         if not ids:
@@ -619,41 +1004,138 @@ class Runner:
         jid = ids[op["idx"] % len(ids)]
         inj = op.get("inj", "ok")
         job = self.real.jobs.pending[jid]
+        jm = self.jobmeta.get(jid, {"id": jid, "gid": None, "k": None})
+        self.cur = {"op": "io", "job": jm, "k": jm.get("k") or ""}
+        before = self.real.seg_names()
         if op.get("mid_purge") and job["kind"] == "out" and inj == "ok":
-            # a purge of the job's own key served while the writer thread is between write and unlink
+            # a purge served while the writer thread is between write and unlink: of the job's own key or of another one
             k = self.real.name2key.get(job["args"][0])
+            if op.get("mid_key") is not None:
+                k = op["mid_key"]
             if k is not None:
                 d = self.real.m.datasets.get(k)
                 if d is not None and not d.ongoing_reads and d.status.name in UNSAFE:
-                    self.unsafe_purge = True
                     self._stat("purge:unsafe-status")
+                g = self.live_alloc(k)
+                had = g is not None and g["shmid"] in before
                 try:
                     out, reached = self.real.job_io_mid(jid, k)
                 except Exception as e:
                     out, reached = "exception:" + _exc(e), True
-                self._stat("io-mid-purge:%s:%s" % ("window" if reached else "no-window", out))
+                jm["io"] = out
+                now = self.real.seg_names()
+                if reached and g is not None and had and g["shmid"] not in now and (g["gid"] != jm["gid"] or out is not True):
+                    jm["own_cb"] = None
+                    self._drop(g, "purge-request-mid-io")    # the purge went through (the job's own unlink then failed)
+                self._vanished(before, None, own_job=jm)
+                self._stat("io-mid-purge:%s:%s:%s" % ("window" if reached else "no-window", "own-key" if k == jm.get("k") else "other-key", out))
                 self._emit({"op": "ioMid", "id": jid, "k": k} if reached else {"op": "io", "id": jid, "inj": "ok"}, out)
                 return out
         try:
             out = self.real.job_io(jid, inj)
         except Exception as e:
             out = "exception:" + _exc(e)
-        self._stat("io:%s:%s" % (self.real.jobs.pending[jid]["kind"], out))
+        jm["io"] = out
+        self._vanished(before, None, own_job=jm)
+        self._stat("io:%s:%s:%s" % (job["kind"], inj, out))
+        if jm.get("gid") is not None and self.grants[jm["gid"]]["size"] > CHUNK:
+            self._stat("io:%s:%s:%s:dataset-larger-than-chunk" % (job["kind"], inj, out))
         self._emit({"op": "io", "id": jid, "inj": inj}, out)
         return out
+
+    def _after_cb(self, jid, out, observe=True):
+        """ledger + model line after the callback of job jid has run"""
+        jm = self.jobmeta.get(jid, {"id": jid, "gid": None, "k": None, "kind": None, "io": None})
+        jm["cb_at"] = self.nops
+        self.cur = {"op": self.cur.get("op") if str(self.cur.get("op", "")).startswith("race") else "cb", "job": jm, "k": jm.get("k") or ""}
+        g = self.grants[jm["gid"]] if jm.get("gid") is not None else None
+        if g is not None and g["phase"] != "gone" and not jm.get("orphan"):
+            if jm["io"] is True:
+                g["phase"] = "on_disk" if jm["kind"] == "out" else "readable"
+            elif g["shmid"] in self.real.seg_names():
+                g["phase"] = "limbo"             # failed job, the segment is still there: still resident
+            else:
+                jm["own_cb"] = self.nops
+                self._drop(g, "failed-" + ("page-out" if jm["kind"] == "out" else "page-in"))
+        self._emit({"op": "cb", "id": jid}, out, observe=observe)
 
     def _op_cb(self, op):
         ids = [i for i, j in sorted(self.real.jobs.pending.items()) if j["io"] is not None]
         if not ids:
             return None
         jid = ids[op["idx"] % len(ids)]
+        jm = self.jobmeta.get(jid, {"id": jid, "gid": None, "k": None})
+        self.cur = {"op": "cb", "job": jm, "k": jm.get("k") or ""}
+        before = self.real.seg_names()
         try:
             self.real.job_cb(jid)
             out = "done"
         except Exception as e:
             out = "exception:" + _exc(e)
-        self._emit({"op": "cb", "id": jid}, out)
+        if jm.get("orphan"):
+            # the failure callback of an orphaned job purges BY KEY: whatever it released belongs to a newer allocation
+            now = self.real.seg_names()
+            for n in before - now:
+                g = self.live_alloc(self.real.name2key.get(n))
+                if g is not None:
+                    g["dropped_by_orphan"] = jid
+                    self._drop(g, "purge-by-orphaned-job")
+        else:
+            own = self.grants[jm["gid"]] if jm.get("gid") is not None else None
+            now = self.real.seg_names()
+            for n in before - now:
+                g = self.live_alloc(self.real.name2key.get(n))
+                if g is not None and g is not own:
+                    self._drop(g, "purge-by-job")
+        self._after_cb(jid, out)
         return out
+
+    def _raced(self, func, jid, fn):
+        """fn() (a request handled by the server thread = this thread) with the callback of disk job `jid` run by a REAL second
+        thread at the moment the server thread has read Manager.free_space inside `func` and not yet written it back"""
+        import threading
+        ths = []
+
+        def window():
+            t = threading.Thread(target=self.real.job_cb, args=(jid,), daemon=True)
+            t.start()
+            t.join(0.05)          # either it ran to completion, or it blocks on the lock the server thread holds
+            ths.append(t)
+        res, fired = self.real.with_window(func, "free_space", fn, window)
+        for t in ths:
+            t.join(OP_DEADLINE_S)
+            if t.is_alive():
+                raise _Blocked()
+        self._stat("race:window-%s" % ("reached" if fired else "not-reached"))
+        return res, fired
+
+    def _op_race(self, op):
+        """an AllocateRequest / GetRequest racing the callback of a completed disk job at the free_space update"""
+        ids = [i for i, j in sorted(self.real.jobs.pending.items()) if j["io"] is not None and not self.jobmeta.get(i, {}).get("orphan")]
+        if not ids:
+            return None
+        jid = ids[op["idx"] % len(ids)]
+        if op.get("via") == "cb":
+            # two callbacks of page-out jobs in two pool threads: the second arrives while the first is between reading and
+            # writing free_space (both sites are under pageout_one)
+            if len(ids) < 2:
+                return None
+            jid2 = ids[(op["idx"] + 1 + op.get("idx2", 0) % (len(ids) - 1)) % len(ids)]
+            func = self.real.jobs.pending[jid]["args"][-1]
+            self.cur = {"op": "race-cb", "job": self.jobmeta.get(jid), "k": ""}
+            _, fired = self._raced(func, jid2, lambda: self.real.job_cb(jid))
+            for j in ((jid, jid2) if fired else (jid,)):
+                self.cur["op"] = "race-cb"
+                self._after_cb(j, "done", observe=(j == (jid2 if fired else jid)))
+            return "done"
+        if op.get("via") == "get":
+            out, _ = self._do_get(op["k"], op["cands"], race=jid)
+            return out
+        return self._do_add(op["k"], op["size"], "d" + op["k"], race=jid)
+
+    def _op_drainJobs(self, op):
+        self.drain()
+        return "drained"
 
     def drain(self):
         """complete every pending disk job successfully (what waiting long enough means)"""
@@ -663,24 +1145,248 @@ class Runner:
             if self._op_io({"op": "io", "idx": 0, "inj": "ok"}) is None:
                 self._op_cb({"op": "cb", "idx": 0})
 
+    # ---- the real client layer
+    def _install_client(self):
+        c = self.real.client
+        c.socket = _SocketModule(self)
+        c.time = _TimeModule(self)
+
+    def _client_request(self, raw):
+        """a datagram sent by the real cascade.shm.client: served by the real LocalServer loop; Allocate/Get requests are ops of
+        the history (model line, oracles), close callbacks are recorded for the enclosing close op"""
+        api = self.real.api
+        ctx = self.client_ctx or {}
+        try:
+            req = api.deser(raw)
+        except Exception:
+            req = None
+        if ctx.get("kind") in ("alloc", "get") and isinstance(req, (api.AllocateRequest, api.GetRequest)):
+            if ctx["kind"] == "get" and not isinstance(req, api.GetRequest) or ctx["kind"] == "alloc" and not isinstance(req, api.AllocateRequest):
+                self._flag("client-protocol", f"client.{ctx['kind']} sent {req}")
+            i = len(ctx["sched"])
+            holder = []
+            orig = self.real.rpc_raw
+
+            def capture(b):
+                r = orig(b)
+                holder.append(r)
+                return r
+            self.real.rpc_raw = capture
+            try:
+                if isinstance(req, api.AllocateRequest):
+                    entry = {"t": self.t, "env": ctx["env_lines"], "cands": []}
+                    ctx["sched"].append(entry)
+                    ctx["env_lines"] = []
+                    ctx["asked"].append(("alloc", req.key, req.l, req.deser_fun))
+                    out = self._do_add(req.key, req.l, req.deser_fun, raw=raw)
+                    ctx["last_granted"] = out == "granted"
+                else:
+                    cands = [self._newrd("c")]
+                    entry = {"t": self.t, "env": ctx["env_lines"], "cands": cands}
+                    ctx["sched"].append(entry)
+                    ctx["env_lines"] = []
+                    ctx["asked"].append(("get", req.key))
+                    out, rd = self._do_get(req.key, cands, raw=raw, attach=False)
+                    ctx["last_granted"] = rd is not None
+                    if rd is not None:
+                        ctx["rd_rec"] = rd
+            finally:
+                self.real.rpc_raw = orig
+            self.wire.append((raw, holder[0] if holder else b""))
+            return holder[0] if holder else b""
+        resp = self.real.rpc_raw(raw)
+        self.wire.append((raw, resp))
+        return resp
+
+    def _client_sleep(self, dt):
+        """time.sleep inside _send_command's wait loop: other clients and the disk threads make their steps"""
+        ctx = self.client_ctx
+        if ctx is None or ctx.get("kind") not in ("alloc", "get"):
+            return
+        ctx["slept"].append(round(dt * 1000))
+        self.t += 1
+        self.real.clock.t = self.t
+        n0 = len(self.lines)
+        i = len(ctx["slept"]) - 1
+        env = ctx["op"].get("env", "drain")
+        if env == "drain":
+            self.drain()
+        elif isinstance(env, list) and i < len(env):
+            for e in env[i]:
+                if e["op"] == "io":
+                    self._op_io(e)
+                elif e["op"] == "cb":
+                    self._op_cb(e)
+        self.cur = {"op": ctx["op"]["op"], "k": ctx["op"].get("k", "")}
+        ctx["env_lines"] = ctx["env_lines"] + [l for l in self.lines[n0:] if l["op"] in ("io", "cb")]
+        if any(l["op"] not in ("io", "cb") for l in self.lines[n0:]):
+            ctx["impure_env"] = True
+
+    def _client_call(self, kind, op, fn):
+        self._install_client()
+        ctx = {"kind": kind, "op": op, "sched": [], "env_lines": [], "asked": [], "slept": []}
+        self.wire = []
+        self._emit({"op": "clientBegin"}, "begin", observe=False)
+        self.client_ctx = ctx
+        res, val = None, None
+        c = self.real.client
+        try:
+            val = fn()
+            res = "granted"
+        except c.ConflictError:
+            res = "conflict"
+        except TimeoutError:
+            res = "timeout"
+        except _Blocked:
+            raise
+        except Exception as e:
+            s = str(e)
+            if ctx.get("last_granted"):
+                # the grant came; creating / attaching the segment failed on the client's side
+                res = "granted"
+                val = "exists" if isinstance(e, FileExistsError) else "invalid" if isinstance(e, ValueError) else None
+            elif isinstance(e, ValueError):
+                res = s if s == "capacity exceeded" else self.real._errname(s)
+            else:
+                res = "exception:" + _exc(e)
+        finally:
+            self.client_ctx = None
+        self.cur = {"op": op["op"], "k": op.get("k", "")}
+        tmo = op.get("timeout")
+        line = {"op": "clientEnd", "kind": kind, "k": op["k"], "budget": None if tmo is None else round(tmo * 1000), "sched": ctx["sched"],
+                "tail": ctx["env_lines"]}
+        if kind == "alloc":
+            line.update(size=op["size"], deser="d" + op["k"])
+        expect = {"res": res, "attempts": len(ctx["sched"]), "same": True}
+        if ctx.get("impure_env"):
+            expect = None
+        self._emit(line, expect, observe=False)
+        self._stat("client:%s:%s:attempts=%s" % (kind, res, min(len(ctx["sched"]), 5)))
+        if tmo is None:
+            self._stat("client:%s:default-timeout" % kind)
+        return res, val, ctx
+
+    def _op_c_alloc(self, op):
+        """the writer's side as the workers do it: client.allocate (AllocateRequest, repeated while the answer is `wait`) which
+        creates the segment; then the bytes are written"""
+        k, size, tok = op["k"], op["size"], op["tok"]
+        deser = "d" + k
+        c = self.real.client
+        args = (k, size, deser) + (() if op.get("timeout") is None else (op["timeout"],))
+        n0 = len(self.grants)
+        res, val, ctx = self._client_call("alloc", op, lambda: c.allocate(*args))
+        want = [("alloc", k, size, deser)] * len(ctx["asked"])
+        if ctx["asked"] != want:
+            self._flag("client-protocol", f"client.allocate({k},{size}) sent {ctx['asked']}")
+        g = self.grants[-1] if len(self.grants) > n0 else None
+        if g is not None and res == "granted":
+            self.cur["alloc"] = g
+            out = "ok"
+            if val == "exists":
+                out = "exists"
+            elif val == "invalid":
+                out = "invalid"
+            else:
+                buf = val
+                buf._ekw_real_cb = True
+                try:
+                    if buf.l != size or len(buf.view()) != size:
+                        self._flag("client-protocol", f"client.allocate({k},{size}) returned a buffer of {len(buf.view())} bytes")
+                    buf.view()[:] = pattern(tok, len(buf.view()))
+                except Exception as e:
+                    out = "exception:" + _exc(e)
+                g["buf"] = buf
+            g["tok"] = tok
+            g["wsize"] = size
+            seg = self.real.seg_bytes(g["shmid"])
+            if out == "ok" and seg is not None and len(seg) != size:
+                self._flag("client-protocol", f"client.allocate({k},{size}) created a segment of {len(seg)} bytes")
+            self._emit({"op": "cwrite", "k": k, "size": size, "tok": tok}, out)
+        if op.get("claim") and res not in ("granted", "conflict"):
+            self._flag("never-granted", f"client.allocate({k},{size}) with {'the default' if op.get('timeout') is None else op['timeout']} timeout ended with {res!r} "
+                       f"after {len(ctx['sched'])} request(s) although every client had finished and all disk jobs completed between the attempts", api="client")
+        return res
+
+    def _op_c_get(self, op):
+        k = op["k"]
+        c = self.real.client
+        args = (k,) + (() if op.get("timeout") is None else (op["timeout"],))
+        res, val, ctx = self._client_call("get", op, lambda: c.get(*args))
+        want = [("get", k)] * len(ctx["asked"])
+        if ctx["asked"] != want:
+            self._flag("client-protocol", f"client.get({k}) sent {ctx['asked']}")
+        rd = ctx.get("rd_rec")
+        if rd is not None:
+            buf = val if res == "granted" and val not in ("exists", "invalid", None) else None
+            if buf is not None:
+                buf._ekw_real_cb = True
+                if buf.l != rd["l"] or buf.deser_fun != rd["deser"]:
+                    self._flag("client-protocol", f"client.get({k}) returned l={buf.l} deser={buf.deser_fun!r} for the answer l={rd['l']} deser={rd['deser']!r}")
+                self._attach(rd, buf)
+            else:
+                # the grant came but the client could not attach: same claim as for a bare get
+                g = self.grants[rd["gid"]] if rd["gid"] is not None else None
+                if g is not None and g["tok"] is not None and g["buf"] is not None:
+                    self._flag("granted-missing-segment", f"client.get({k}) granted but attaching {rd['shmid']} failed ({res})", **self._mech(alloc=g))
+        if op.get("claim") and res == "timeout":
+            self._flag("never-granted", f"client.get({k}) with {'the default' if op.get('timeout') is None else op['timeout']} timeout ended with {res!r} after "
+                       f"{len(ctx['sched'])} request(s) although every client had finished and all disk jobs completed between the attempts",
+                       api="client-get", **self._mech(alloc=self.live_alloc(k)))
+        return res
+
+    # ---- eventually granted
     def _op_retry(self, op):
         """C09 text: a request that can be satisfied by evicting idle datasets is eventually granted.
-        Every client finishes what it holds, the disk jobs complete, then `add` is retried."""
+        Every client finishes what it holds, the disk jobs complete; then every dataset the store still holds must be
+        readable again after finitely many retries, and an allocation of ANY size up to the capacity must be granted
+        (everything is idle, so everything is evictable)."""
         k, size = op["k"], op["size"]
         for g in list(self.grants):
-            if g["tok"] is None:
+            if g["tok"] is None:       # every writer finishes, also those whose allocation the store has given up meanwhile
                 self._op_cwrite({"op": "cwrite", "k": g["k"], "tok": 1 + g["gid"] % 250})
         for g in list(self.grants):
-            if not g["closed"]:
+            if not g["closed"] and g["tok"] is not None:
                 self._op_closeW({"op": "closeW", "k": g["k"]})
         while self.readers:
             self._op_closeR({"op": "closeR", "idx": 0})
         self.drain()
-        obs = self.real.observe()
-        idle = sum(d["size"] for d in obs["ds"] if d["status"] == "in_memory" and not d["readers"])
-        exists = any(d["k"] == k for d in obs["ds"])
-        claim = (not exists) and size <= self.cap and size <= obs["free"] + idle
+        # (1) stay reachable: a get of a dataset that is still held by the store (ledger) does not answer `wait` forever
+        live = [g for g in self.grants if g["phase"] != "gone" and g.get("made_readable")]
+        for j in range(min(op.get("probe", 1), len(live))):
+            g = live[(op.get("pick", 0) + j) % len(live)]
+            if g["phase"] == "gone":
+                continue          # released meanwhile (e.g. its page-out failed: marked bad)
+            self.cur = {"op": "retry-get", "k": g["k"], "alloc": g}
+            out = None
+            if op.get("client"):
+                out = self._op_c_get({"op": "c_get", "k": g["k"], "env": "drain", "claim": True})
+                if out == "granted":
+                    self._op_closeR({"op": "closeR", "idx": len(self.readers) - 1})
+                continue
+            for attempt in range(5):
+                self.t += 1
+                self.real.clock.t = self.t
+                out, rd = self._do_get(g["k"], [self._newrd("p")])
+                if out != "wait":
+                    break
+                self.drain()
+            if out == "wait":
+                self._flag("never-granted", f"get({g['k']}) still answered 'wait' after 5 attempts with all disk jobs completed in between "
+                           f"(ledger: {g['phase']}, size {g['size']}, capacity {self.cap})", api="get", **self._mech(alloc=g))
+            elif isinstance(out, dict):
+                self._op_closeR({"op": "closeR", "idx": len(self.readers) - 1})
+            self._stat("retry:get:" + (out if isinstance(out, str) else "granted"))
+        self.drain()
+        # (2) the allocation
+        exists = self.live_alloc(k) is not None
+        claim = (not exists) and size <= self.cap
         self._stat("retry:" + ("claim" if claim else "noclaim"))
+        self.cur = {"op": "retry-add", "k": k}
+        if op.get("client"):
+            out = self._op_c_alloc({"op": "c_alloc", "k": k, "size": size, "tok": 1 + self.nops % 250, "env": "drain", "claim": claim})
+            if claim:
+                self._stat("retry:granted" if out == "granted" else "retry:refused")
+            return out
         out = None
         for attempt in range(4):
             self.t += 1
@@ -689,9 +1395,10 @@ class Runner:
             if out != "wait":
                 break
             self.drain()
-        if claim and out != "granted":
-            self._flag("never-granted", f"add({k},{size}) still answered {out!r} after 4 retries with all disk jobs completed in between; "
-                       f"capacity {self.cap}, free {obs['free']}, idle in-memory datasets {idle}")
+        if claim and out == "wait":
+            resident = sum(g["size"] for g in self.grants if g["phase"] in LIVE_PHASES)
+            self._flag("never-granted", f"add({k},{size}) still answered 'wait' after 4 attempts with every client finished and all disk jobs completed in "
+                       f"between; capacity {self.cap}, resident by the ledger {resident}", api="add")
         if claim:
             self._stat("retry:granted" if out == "granted" else "retry:refused")
         return out
@@ -716,14 +1423,14 @@ class Runner:
         self._close_handles()
         self.real.exited = True
         self.real.m.atexit()
-        m = self.real.m
         segs = self.real._dir("/dev/shm", self.real.prefix)
         full = self.real.observe_ds()
         self.lines.append({"op": "atexit"})
         self.outs.append({"out": "atexit", "st": {"segs": segs, "ds": full}})
         self.nops += 1
         self._stat("op:atexit")
-        if any(d["readers"] for d in self.outs[-2]["st"]["ds"]):
+        prev = next((o for o in reversed(self.outs[:-1]) if "st" in o), None)
+        if prev and any(d["readers"] for d in prev["st"]["ds"]):
             self._stat("atexit:with-registered-readers")
         if segs:
             self._flag("segments-left-after-atexit", f"after Manager.atexit the segments {[x[0] for x in segs]} are still in /dev/shm "
@@ -740,35 +1447,56 @@ class Runner:
 
 def gen_and_run(rng, cfg):
     """Generate a history adaptively while running it on the real store.
-    cfg: cap, nkeys, nclients, nops, via_server, unsafe (allow purge in transitional status), jumps"""
-    run = Runner(cfg["cap"], cfg["via_server"])
+    cfg: cap, nkeys, nclients, nops, via_server, unsafe (allow purge in transitional status), jumps, stale, big, nonconform"""
+    run = Runner(cfg["cap"], cfg["via_server"], cfg.get("stale"), cfg.get("avail"))
     ops = []
     keys = ["k%d" % i for i in range(cfg["nkeys"])]
-    cap = cfg["cap"]
+    cap = run.cap
     rd = itertools.count()
     t = 1
-    try:
-        for _ in range(cfg["nops"]):
+    stale_max = max(run.real.stale_read, run.real.stale_create)
+    stale_min = min(run.real.stale_read, run.real.stale_create)
+    def step():
+        nonlocal t
+        if True:
+            t = max(t, run.t)
             t += rng.randint(1, 5)
-            if cfg["jumps"] and rng.random() < 0.03:
-                t += run.real.stale_read + rng.randint(0, 50)
+            if cfg["jumps"] and rng.random() < 0.04:
+                r = rng.random()
+                # beyond both windows, or between the two (only one kind of staleness applies)
+                t += (stale_max + rng.randint(0, 50)) if r < 0.6 or stale_max == stale_min else rng.randint(stale_min + 1, stale_max)
             real = run.real
             status = {k: d.status.name for k, d in real.m.datasets.items()}
-            unwritten = [g for g in run.grants if g["tok"] is None]
+            unwritten = [g for g in run.grants if g["tok"] is None and g["phase"] != "gone"]
             unclosed = [g for g in run.grants if g["tok"] is not None and not g["closed"]]
             pend_io = [j for j in real.jobs.pending.values() if j["io"] is None]
             pend_cb = [j for j in real.jobs.pending.values() if j["io"] is not None]
             c09 = cfg.get("profile") == "c09"
-            w = [("add", 14 if c09 else 18), ("get", 22 if c09 else 14), ("purge", 8 if c09 else 6), ("freeSpace", 1 if c09 else 3),
+            w = [("add", 12 if c09 else 15), ("get", 20 if c09 else 12), ("purge", 8 if c09 else 6), ("freeSpace", 1 if c09 else 3),
                  ("cwrite", 30 if unwritten else 0), ("closeW", 14 if unclosed else 0),
                  ("closeR", (8 if c09 else 10) if run.readers else 0), ("io", 14 if pend_io else 0), ("cb", 16 if pend_cb else 0),
-                 ("bogus", 1), ("retry", 2 if c09 else 1)]
+                 ("bogus", 1), ("retry", 2 if c09 else 1), ("c_alloc", 4), ("c_get", (5 if c09 else 3) if status else 0),
+                 ("race", 6 if pend_cb else 0)]
             kind = rng.choices([x for x, _ in w], [y for _, y in w])[0]
             k = rng.choice(keys)
-            if kind == "add":
+
+            def a_size():
                 r = rng.random()
-                size = rng.randint(1, max(1, cap // 2)) if r < 0.6 else rng.randint(1, cap) if r < 0.92 else cap + rng.randint(1, 3)
-                op = {"op": "add", "c": rng.randrange(cfg.get("nclients", 1)), "k": k, "size": size, "t": t}
+                if r < 0.02:
+                    return 0
+                if cfg.get("big") and r < 0.5:
+                    return rng.choice([CHUNK, CHUNK + 1, 2 * CHUNK, 2 * CHUNK + 1, rng.randint(CHUNK + 1, max(CHUNK + 2, min(cap, 3 * CHUNK)))])
+                return rng.randint(1, max(1, min(cap, 64) // 2)) if r < 0.6 else rng.randint(1, min(cap, 64) if cfg.get("big") else cap) if r < 0.93 else cap + rng.randint(1, 3)
+
+            def env_steps():
+                """what the other clients' disk jobs do during one sleep of the waiting client"""
+                r = rng.random()
+                if r < 0.55:
+                    return "drain"
+                return [[{"op": rng.choice(["io", "io", "cb"]), "idx": rng.randrange(3), "inj": rng.choice(["ok", "ok", "ok", "fail"])}
+                         for _ in range(rng.randint(0, 3))] for _ in range(rng.randint(0, 4))]
+            if kind == "add":
+                op = {"op": "add", "c": rng.randrange(cfg.get("nclients", 1)), "k": k, "size": a_size(), "t": t}
             elif kind == "get":
                 if rng.random() < 0.7 and status:
                     k = rng.choice(sorted(status))
@@ -783,12 +1511,15 @@ def gen_and_run(rng, cfg):
                     k = rng.choice(sorted(status))
                 d = real.m.datasets.get(k)
                 if d is not None and not d.ongoing_reads and d.status.name in UNSAFE and not cfg["unsafe"]:
-                    continue
+                    return
                 op = {"op": "purge", "k": k}
             elif kind == "freeSpace":
                 op = {"op": "freeSpace"}
             elif kind == "cwrite":
-                op = {"op": "cwrite", "k": rng.choice(unwritten)["k"], "tok": rng.randint(1, 250)}
+                g = rng.choice(unwritten)
+                op = {"op": "cwrite", "k": g["k"], "tok": rng.randint(1, 250)}
+                if cfg.get("nonconform") and rng.random() < 0.4:
+                    op["size"] = max(1, g["size"] + rng.choice([-2, -1, 1, 3, CHUNK]))     # not what client.allocate does
             elif kind == "closeW":
                 op = {"op": "closeW", "k": rng.choice(unclosed)["k"]}
             elif kind == "closeR":
@@ -796,8 +1527,19 @@ def gen_and_run(rng, cfg):
             elif kind == "io":
                 r = rng.random()
                 op = {"op": "io", "idx": rng.randrange(4), "inj": "ok" if r < 0.8 else "fail" if r < 0.92 else "failLate"}
-                if cfg["unsafe"] and r < 0.3:
-                    op["mid_purge"] = True        # the purge races the writer thread of the job (only in `unsafe` histories)
+                if r < 0.25:
+                    # a purge served while the writer thread of the job is between write and unlink
+                    ids = [i for i, j in sorted(real.jobs.pending.items()) if j["io"] is None]
+                    job = real.jobs.pending[ids[op["idx"] % len(ids)]]
+                    own = real.name2key.get(job["args"][0])
+                    others = [x for x in sorted(status) if x != own]
+                    od = real.m.datasets.get(own) if own is not None else None
+                    mk = own if (cfg["unsafe"] and rng.random() < 0.5) or not others or (od is not None and od.ongoing_reads and rng.random() < 0.8) else rng.choice(others)
+                    d = real.m.datasets.get(mk) if mk is not None else None
+                    unsafe_target = d is not None and not d.ongoing_reads and d.status.name in UNSAFE
+                    if mk is not None and (cfg["unsafe"] or not unsafe_target):
+                        op["mid_purge"] = True
+                        op["mid_key"] = mk
             elif kind == "cb":
                 op = {"op": "cb", "idx": rng.randrange(4)}
             elif kind == "bogus":
@@ -808,13 +1550,90 @@ def gen_and_run(rng, cfg):
                     op = {"op": "closeW", "bogus": True, "k": k}
                 else:
                     op = {"op": "get", "k": "nokey", "t": t, "cands": ["r%07d" % next(rd)]}
+            elif kind == "c_alloc":
+                op = {"op": "c_alloc", "k": k, "size": a_size(), "tok": rng.randint(1, 250), "t": t, "env": env_steps()}
+                if op["k"] in status or op["size"] > real.m.free_space or rng.random() < 0.3:
+                    op["timeout"] = rng.choice(TIMEOUTS)      # the default (60 s = 600 attempts) only where the grant is due at once
+            elif kind == "c_get":
+                k = rng.choice(sorted(status))
+                op = {"op": "c_get", "k": k, "t": t, "env": env_steps()}
+                if status.get(k) != "in_memory" or rng.random() < 0.3:
+                    op["timeout"] = rng.choice(TIMEOUTS)
+            elif kind == "race":
+                ondisk = [x for x in sorted(status) if status[x] == "on_disk"]
+                if len(pend_cb) >= 2 and rng.random() < 0.4:
+                    op = {"op": "race", "via": "cb", "idx": rng.randrange(4), "idx2": rng.randrange(4), "t": t}
+                elif ondisk and rng.random() < 0.4:
+                    op = {"op": "race", "via": "get", "k": rng.choice(ondisk), "cands": ["r%07d" % next(rd)], "idx": rng.randrange(4), "t": t}
+                else:
+                    free = real.m.free_space
+                    fresh = [x for x in keys if x not in status] or ["z%d" % next(rd)]
+                    op = {"op": "race", "k": rng.choice(fresh), "size": rng.randint(1, max(1, min(free, 64))), "idx": rng.randrange(4), "t": t}
             else:
-                op = {"op": "retry", "k": "n%d" % rng.randrange(3), "size": rng.randint(1, cap), "t": t}
+                op = {"op": "retry", "k": "n%d" % rng.randrange(3), "size": rng.randint(1, cap), "t": t, "probe": rng.randint(0, 2),
+                      "pick": rng.randrange(6), "client": rng.random() < 0.4}
             op.setdefault("t", t)
             ops.append(op)
             run.apply(op)
+
+    def do(op):
+        """a scripted op of the life-cycle family"""
+        nonlocal t
+        t = max(t, run.t) + 1
+        op["t"] = t
+        ops.append(op)
+        return run.apply(op)
+
+    def until(mk, ok, tries=5):
+        out = None
+        for _ in range(tries):
+            out = do(mk())
+            if ok(out):
+                return out
+            if out != "wait":
+                return out
+            do({"op": "drainJobs"})
+            if rng.random() < 0.3:
+                step()
+        return out
+
+    def lifecycle():
+        """one key lives several lives: written, evicted by memory pressure, read back (page-in), purged, and allocated again
+        with the SAME size and different bytes -- the spill file of the previous life is still on disk"""
+        key, press = "L", "LP"
+        size = rng.randint(1, cap) if not cfg.get("big") or rng.random() < 0.5 else rng.randint(CHUNK + 1, cap)
+        for life in range(rng.randint(2, 4)):
+            tok = rng.randint(1, 250)
+            if until(lambda: {"op": "add", "k": key, "size": size}, lambda o: o == "granted") != "granted":
+                return
+            do({"op": "cwrite", "k": key, "tok": tok})
+            do({"op": "closeW", "k": key})
+            for cycle in range(rng.randint(1, 2)):
+                if rng.random() < 0.4:
+                    step()
+                # memory pressure: an allocation of the whole capacity evicts everything idle
+                if until(lambda: {"op": "add", "k": press, "size": cap}, lambda o: o == "granted") == "granted":
+                    do({"op": "cwrite", "k": press, "tok": rng.randint(1, 250)})
+                    do({"op": "closeW", "k": press})
+                    do({"op": "purge", "k": press})
+                if rng.random() < 0.4:
+                    step()
+                out = until(lambda: {"op": "get", "k": key, "cands": ["L%07d" % next(rd)]}, lambda o: isinstance(o, dict))
+                if isinstance(out, dict):
+                    idx = next((i for i, r in enumerate(run.readers) if r["k"] == key), None)
+                    if idx is not None:
+                        do({"op": "closeR", "idx": idx})
+            do({"op": "purge", "k": key})
+            run._stat("lifecycle:lives-completed")
+
+    try:
+        if cfg.get("lifecycle"):
+            lifecycle()
+        for _ in range(cfg["nops"] if not cfg.get("lifecycle") else cfg["nops"] // 4):
+            step()
         if cfg.get("final_retry"):
-            op = {"op": "retry", "k": "final", "size": rng.randint(max(1, cap // 2), cap), "t": t + 1}
+            op = {"op": "retry", "k": "final", "size": rng.randint(max(1, cap // 2), cap), "t": max(t, run.t) + 1, "probe": 2,
+                  "pick": rng.randrange(6), "client": rng.random() < 0.4}
             ops.append(op)
             run.apply(op)
     finally:
@@ -823,8 +1642,9 @@ def gen_and_run(rng, cfg):
 
 
 def replay_history(case):
-    """Run a recorded history {cap, via_server, ops} on a fresh real store."""
-    run = Runner(case["cap"], case.get("via_server", False))
+    """Run a recorded history {cap, via_server, stale, ops} on a fresh real store."""
+    stale = case.get("stale")
+    run = Runner(case["cap"], case.get("via_server", False), tuple(stale) if stale else None, case.get("avail"))
     try:
         for op in case["ops"]:
             run.apply(op)
@@ -833,18 +1653,17 @@ def replay_history(case):
     return run, left
 
 
-def shrink(case, sig):
+def shrink(case, sig, budget_s=120):
     """Greedy removal of ops that keeps an oracle failure with the same signature."""
     def fails(ops):
         r, _ = replay_history({**case, "ops": ops})
-        f = r.fails.get(sig["kind"])
-        return f is not None and f[3] == sig
+        return any(e[3] == sig for e in r.events)
     cur = list(case["ops"])
     if not fails(cur):
         return case
     changed = True
     import time as _time
-    t_end = _time.time() + (40 if sig.get("kind") == "request-never-answered" else 120)
+    t_end = _time.time() + (min(40, budget_s) if sig.get("kind") == "request-never-answered" else budget_s)
     # first cut the tail after the failing op (cheap, and the only affordable step when every replay costs an op deadline)
     while len(cur) > 1 and _time.time() < t_end and fails(cur[:-1]):
         cur = cur[:-1]
@@ -865,12 +1684,24 @@ def shrink(case, sig):
 C08_KINDS = ("segments-exceed-capacity", "resident-exceeds-capacity", "free-space-mismatch", "segments-exceed-accounted",
              "granted-early", "granted-over-existing", "oversize-not-refused", "nofit-not-wait")
 C09_KINDS = ("granted-missing-segment", "content-mismatch", "readable-before-close", "reader-unprotected",
-             "delayed-purge-lost", "never-granted", "request-never-answered")
+             "delayed-purge-lost", "never-granted", "request-never-answered", "client-protocol")
 
 
 def random_cfg(rng, maxops, maxkeys, profile):
-    return {"cap": rng.randint(1, 64), "nkeys": rng.randint(1, maxkeys), "nclients": rng.randint(1, 4),
+    big = rng.random() < 0.05
+    r = rng.random()
+    # STALE_CREATE / STALE_READ: the source's values (equal), or small and different ones
+    stale = None if r < 0.35 else (rng.choice([40, 120, 400]), rng.choice([60, 200, 900]))
+    cap = rng.randint(CHUNK + 1, 5 * CHUNK) if big else rng.randint(1, 64)
+    r2 = rng.random()
+    # what /dev/shm offers: plenty (70%), or an amount around the configured capacity (Manager.__init__ trims), or no capacity configured
+    avail = None if r2 < 0.7 or big else rng.randint(1, 2 * cap)
+    if avail is not None and rng.random() < 0.15:
+        cap = 0          # capacity=None/0: the store takes what /dev/shm offers
+    return {"cap": cap, "big": big, "avail": avail,
+            "nkeys": rng.randint(1, maxkeys), "nclients": rng.randint(1, 4),
             "nops": rng.randint(5, maxops), "via_server": rng.random() < 0.5, "unsafe": rng.random() < 0.12,
+            "nonconform": rng.random() < 0.05, "stale": stale, "lifecycle": rng.random() < 0.08,
             "jumps": rng.random() < (0.45 if profile == "c09" else 0.25),
             "final_retry": rng.random() < (0.8 if profile == "c09" else 0.4), "profile": profile}
 
@@ -895,6 +1726,8 @@ def compare_with_model(ctx, runs, drive="C08"):
             mo2 = {"out": mo.get("out")}
             if "st" in o:
                 mo2["st"] = {kk: st.get(kk) for kk in o["st"]}
+            if o["out"] is None and "st" not in o:
+                continue                  # a client call whose sleeps contained more than disk-job steps: not comparable as a whole
             if mo2 != o:
                 diff = [kk for kk in o.get("st", {}) if mo2.get("st", {}).get(kk) != o["st"][kk]]
                 ctx.disagree("shm-op %d %s (differs: out=%s %s)" % (i, l.get("op"), mo2["out"] != o["out"], diff),
@@ -904,12 +1737,23 @@ def compare_with_model(ctx, runs, drive="C08"):
         k += len(run.lines)
 
 
+def check_source_constants(ctx):
+    try:
+        got = source_constants()
+    except Exception as e:
+        got = {"error": _exc(e)}
+    if got != EXPECTED_CONSTANTS:
+        ctx.disagree("source-constants", {"expected": EXPECTED_CONSTANTS}, EXPECTED_CONSTANTS, got)
+
+
 def run_batch(ctx, kinds, profile, n, maxops, maxkeys, corpus_glob, chunk=300):
     """Corpus cases first, then n random histories (in chunks, one Lean driver process per chunk); oracle
     violations of `kinds` are reported (shrunk), every trace is compared with the model after every op."""
     import glob
     import json
-    from ekw.core import CORPUS_DIR
+    from ekw.core import CORPUS_DIR, load_known, match_known
+    check_source_constants(ctx)
+    known = load_known()
     seen = {}
     todo = n
     first = True
@@ -921,12 +1765,20 @@ def run_batch(ctx, kinds, profile, n, maxops, maxkeys, corpus_glob, chunk=300):
                 case = case.get("case", case)
                 run, left = replay_history(case)
                 cases.append((case, run, left))
+                ctx.count("corpus_witnesses_replayed")
             first = False
         blocked = 0
         for _ in range(min(chunk, todo)):
             cfg = random_cfg(ctx.rng, maxops, maxkeys, profile)
             ops, run, left = gen_and_run(ctx.rng, cfg)
-            cases.append(({"cap": cfg["cap"], "via_server": cfg["via_server"], "ops": ops}, run, left))
+            cases.append(({"cap": cfg["cap"], "via_server": cfg["via_server"], "stale": cfg["stale"], "avail": cfg["avail"], "ops": ops}, run, left))
+            ctx.count("histories_capacity_" + ("plenty_available" if cfg["avail"] is None else "not_configured" if not cfg["cap"] else
+                                               "trimmed_to_available" if cfg["avail"] < cfg["cap"] else "below_available"))
+            ctx.count("histories_with_datasets_larger_than_chunk" if cfg["big"] else "histories_small_datasets")
+            if cfg["lifecycle"]:
+                ctx.count("histories_life_cycles_of_one_key")
+            ctx.count("histories_stale_constants_of_source" if cfg["stale"] is None else
+                      "histories_stale_create_%s_stale_read" % ("<" if cfg["stale"][0] < cfg["stale"][1] else ">" if cfg["stale"][0] > cfg["stale"][1] else "="))
             blocked += 1 if getattr(run, "deadlocked", False) else 0
             if blocked >= 4:
                 todo = 0            # a store that stops answering: each further history costs a full op deadline and shows the same
@@ -943,22 +1795,30 @@ def run_batch(ctx, kinds, profile, n, maxops, maxkeys, corpus_glob, chunk=300):
             ctx.count("histories_via_server_dispatch" if case.get("via_server") else "histories_direct_manager")
             ctx.count("model_steps_compared", run.nops)
             if run.unsafe_purge:
-                ctx.count("histories_with_purge_in_unsafe_status")
+                ctx.count("histories_with_disk_job_orphaned_by_purge")
             for kk, v in st.items():
                 ctx.count(kk, v)
             if left:
                 ctx.count("histories_leaving_segments_after_atexit")
-            f = run.first_fail(kinds)
-            if f is not None:
-                sig = f[3]
+            for ev in run.events:
+                if ev[0] not in kinds:
+                    continue
+                sig = ev[3]
+                if sig.get("nonconform_writer"):
+                    ctx.count("oracle:" + sig["kind"] + ":writer-did-not-conform (assumption broken by the harness on purpose)")
+                    continue
                 key = json.dumps(sig, sort_keys=True)
                 seen[key] = seen.get(key, 0) + 1
-                ctx.count("oracle:" + sig["kind"] + (":unsafe-purge" if sig.get("unsafe_purge") else ""))
+                ctx.count("oracle:" + sig["kind"] + (":orphaned-job" if sig.get("unsafe_purge") else ""))
                 if seen[key] > 2:
                     continue            # same signature again: already reported with a shrunk input
-                small = shrink(case, sig)
+                if match_known(ctx.prop, sig, known) is not None and seen[key] > 1:
+                    continue
+                # shrinking costs real time (every candidate is replayed on the real store): a few signatures per run, the rest as found
+                ctx.extra["shm_shrinks"] = ctx.extra.get("shm_shrinks", 0) + 1
+                small = shrink(case, sig, budget_s=ctx.budget(30, 120)) if ctx.extra["shm_shrinks"] <= ctx.budget(5, 20) else case
                 r2, _ = replay_history(small)
-                f2 = r2.fails.get(sig["kind"]) or f
+                f2 = next((e for e in r2.events if e[3] == sig), ev)
                 ctx.violation(sig, small, f2[1])
         compare_with_model(ctx, runs)
         if len(ctx.disagreements) > 50:
@@ -970,8 +1830,11 @@ def replay_print(payload, kinds):
     run, left = replay_history(case)
     for l, o in zip(run.lines, run.outs):
         st = o.get("st", {})
-        print(l, "->", o["out"], "| free", st.get("free"), "lock", st.get("lock"), "count", st.get("count"),
+        print({k: v for k, v in l.items() if k != "sched"}, "->", o["out"], "| free", st.get("free"), "lock", st.get("lock"), "count", st.get("count"),
               [(d["k"], d["status"], d["size"], len(d["readers"])) for d in st.get("ds", [])], "segs", st.get("segs"))
-    f = run.first_fail(kinds)
-    print("oracle:", f[:3] if f else None)
-    return 1 if f else 0
+    fs = [e for e in run.events if e[0] in kinds]
+    for f in fs:
+        print("oracle:", f[:3], f[3])
+    if not fs:
+        print("oracle: None")
+    return 1 if fs else 0
